@@ -141,8 +141,13 @@ def dht_frames(output):
     return MOD in head or "/repo/" in head
 
 
+def evidence_dir():
+    # seeded-change and mutant runs set VERIF_EVIDENCE_DIR so that they do not overwrite the evidence of the unchanged tree
+    return os.environ.get("VERIF_EVIDENCE_DIR") or os.path.join(ROOT, "evidence")
+
+
 def save_replay(pid, rec):
-    d = os.path.join(ROOT, "evidence", "replays")
+    d = os.path.join(evidence_dir(), "replays")
     os.makedirs(d, exist_ok=True)
     body = json.dumps(rec, sort_keys=True)
     digest = hashlib.sha256(body.encode()).hexdigest()[:12]
@@ -358,8 +363,8 @@ def merge_evidence(pid, tier, verif_seed, jobs, nviol, wall, level, known_lines,
         "property_id": pid, "tier": tier, "seed": verif_seed, "level": level,
         "coverage": cov, "assumptions": assumptions, "wall_s": round(wall, 2), "violations": nviol,
     }
-    os.makedirs(os.path.join(ROOT, "evidence"), exist_ok=True)
-    with open(os.path.join(ROOT, "evidence", f"{pid}.json"), "w") as f:
+    os.makedirs(evidence_dir(), exist_ok=True)
+    with open(os.path.join(evidence_dir(), f"{pid}.json"), "w") as f:
         json.dump(ev, f, indent=1, sort_keys=True)
 
 
